@@ -364,7 +364,7 @@ func c04key(r *vu.RNG) []byte {
 }
 
 func c04value(r *vu.RNG, tiny bool) []byte {
-	lens := []int{0, 1, 2, 3, 8, 20, 31, 32, 33, 34, 40, 64}
+	lens := []int{0, 1, 2, 3, 8, 20, 26, 27, 28, 29, 30, 31, 32, 33, 34, 40, 64}
 	l := lens[r.Intn(len(lens))]
 	if tiny {
 		l = r.Intn(3)
